@@ -48,8 +48,8 @@ def cls(x):
 def classify(run, case, impl, model):
     if run == l0_common.RUN_NAME:
         return l0_common.classify(run, case, impl, model)
-    if case.startswith("conc"):
-        return "conc/impl=%s" % impl.split()[0]
+    if case.startswith("conc") or case.startswith("exhaust"):
+        return "%s/impl=%s" % (case.split()[0], impl.split()[0])
     op, a, b = first_diff(case, impl, model)
     if op is None:
         io = impl.split(";")
